@@ -150,6 +150,6 @@ func sizeFor(tier string, r *core.Rand) int {
 }
 
 func genC01(tier string, r *core.Rand) Scenario {
-	a, b := GenStations(r, 14, sizeFor(tier, r))
+	a, b := GenStations(r, 22, sizeFor(tier, r))
 	return Scenario{A: a, B: b, Sessions: []SessionPlan{{AMaster: r.Bool(), Link: GenLink(r)}}}
 }
